@@ -24,6 +24,7 @@ package manifest
 
 //@ func (*Permission).IsAllowed
 //@ requires p != nil && m != nil && wfDesc(p.Contract)
+//@ opt uncovered 1
 //@ ensures[allowed] result == allowed(*p, hash, m, method)
 //@ seed-import keys github.com/nspcc-dev/neo-go/pkg/crypto/keys
 //@ seed-import util github.com/nspcc-dev/neo-go/pkg/util
